@@ -192,6 +192,24 @@ def scenario_text(tape, out):
             inside = True
     if inside:
         out.probe("cut-inside-multibyte")
+    # a reader that gives up half way must not leave anything behind on the Content
+    if len(chunks) > 1:
+        it = content.iter_text()
+        try:
+            for _ in range(1 + tape.draw("schedule", len(chunks), "abandon-after")):
+                next(it)
+        except StopIteration:
+            pass
+        if tape.chance("schedule", 1, 2, "close-abandoned-iterator"):
+            it.close()
+        del it
+        try:
+            again = content.as_text()
+        except UnicodeDecodeError as e:
+            again = e
+        if again != text:
+            out.violate("text-mismatch", f"after-abandoned-iteration:{charset}", f"text {text!r} chunks {chunks}: as_text() after an abandoned iter_text() gave {again!r}")
+        out.probe("abandoned-iteration")
     # two text contents decoded in an interleaved fashion (two readers, one per content): the
     # scheduler decides whose next chunk is pulled; neither may disturb the other
     text2 = _text(tape)
@@ -232,6 +250,10 @@ def scenario_text(tape, out):
 
 def scenario_eq(tape, out):
     a = _bytes(tape)
+    if tape.chance("program", 1, 8, "block-sized"):
+        # lengths at and around multiples of the default chunk size
+        a = bytes(65 + (i % 23) for i in range(_c.DEFAULT_CHUNK_SIZE * (1 + tape.draw("program", 2, "blocks")) + tape.choice("program", (0, 0, -1, 1), "off-by")))
+        out.probe("block-sized-content")
     same_bytes = tape.chance("program", 1, 2, "same-bytes")
     b = a if same_bytes else (a + b"x" if tape.chance("program", 1, 2) else a[:-1] if a else b"y")
     types = [ContentType("text", "plain", {"charset": "utf8"}), ContentType("text", "plain"),
